@@ -166,3 +166,31 @@ Qed.
 Lemma image_dicts s :
   T_sh_type s = sh_dict (machine_key (exp_machine s)) /\ T_p_type s = p_dict (machine_key (exp_machine s)).
 Proof. split; reflexivity. Qed.
+
+(* the extended-numbering rules with their thresholds, as the well-formedness predicate reads
+   them (gABI: e_shnum, e_phnum, e_shstrndx): below the threshold the field may hold the value
+   itself (or use the escape), from the threshold on the escape is the only encoding *)
+Lemma escape_thresholds img s : wf_image img s = true ->
+  let e := i_ehdr s in
+  (0 < n_sections s -> n_sections s < 0xff00 ->
+     e_shnum e = n_sections s \/ (e_shnum e = 0 /\ sh_size (sec0 s) = n_sections s)) /\
+  (0xff00 <= n_sections s -> e_shnum e = 0 /\ sh_size (sec0 s) = n_sections s) /\
+  (0 < n_segments s -> n_segments s < 0xffff ->
+     e_phnum e = n_segments s \/ (e_phnum e = 0xffff /\ sh_info (sec0 s) = n_segments s)) /\
+  (0xffff <= n_segments s -> e_phnum e = 0xffff /\ sh_info (sec0 s) = n_segments s) /\
+  (0 < n_sections s -> i_shstrndx s < 0xff00 ->
+     e_shstrndx e = i_shstrndx s \/ (e_shstrndx e = 0xffff /\ sh_link (sec0 s) = i_shstrndx s)) /\
+  (0xff00 <= i_shstrndx s -> e_shstrndx e = 0xffff /\ sh_link (sec0 s) = i_shstrndx s).
+Proof.
+  intros Hwf. cbv zeta.
+  pose proof (counts_sections img s Hwf) as H1. pose proof (counts_segments img s Hwf) as H2.
+  unfold SHN_LORESERVE, PN_XNUM in *.
+  assert (H3 : 0 < n_sections s -> 0 <= i_shstrndx s < n_sections s /\
+     ((e_shstrndx (i_ehdr s) = i_shstrndx s /\ i_shstrndx s < 65280) \/
+      (e_shstrndx (i_ehdr s) = 65535 /\ sh_link (sec0 s) = i_shstrndx s))).
+  { intros Hn. exact (counts_strndx img s Hwf Hn). }
+  assert (H4 : n_sections s = 0 -> i_shstrndx s = 0) by exact (counts_strndx0 img s Hwf).
+  pose proof (zlen_nonneg (i_sections s)) as Hn0. fold (n_sections s) in Hn0.
+  repeat split; intros; try lia.
+  all: destruct (Z.eq_dec (n_sections s) 0) as [E|E]; [lia|]; specialize (H3 ltac:(lia)); lia.
+Qed.
